@@ -203,6 +203,11 @@ func edCheckC16(work bool, file string, ops []edOp) (sig, info string) {
 		}
 		oneUncommented = edOneUncommented(pre.Mod.Syntax)
 	}
+	// end-of-line comments of the requirements just before the setter (for the "remainder-is-marker" cause)
+	preSuffix := map[*modfile.Require]string{}
+	if !work {
+		edRecordPreBulk(preSuffix, pre.Mod)
+	}
 	// apply the setter + Cleanup on the same in-memory file
 	panicked := func() (p bool) {
 		defer func() {
@@ -266,19 +271,28 @@ func edCheckC16(work bool, file string, ops []edOp) (sig, info string) {
 	if err != nil {
 		return "c16-reparse-fails", string(out)
 	}
-	if got := strings.Fields(re.render(true))[3+kind]; got != wantS {
-		return "c16-exact-reparse:" + set.Name, "want " + wantS + " got " + got
-	}
-	goV := ""
-	if re.Go != nil {
-		goV = re.Go.K[0]
-	}
 	knownSig, knownInfo := "", ""
 	defer func() {
 		if sig == "" {
 			sig, info = knownSig, knownInfo
 		}
 	}()
+	var nested map[string]bool // paths whose line shows the recorded cause "remainder-is-marker"
+	if got := strings.Fields(re.render(true))[3+kind]; got != wantS {
+		// recorded finding: the requested marking was "direct", the line's comment before the setter was
+		// "// indirect; T" with T itself an indirect marker, and the output line is still indirect
+		if !work {
+			nested = edOnlyRemainderIsMarker(set.List, pre.Mod, reMod, preSuffix)
+		}
+		if nested == nil {
+			return "c16-exact-reparse:" + set.Name, "want " + wantS + " got " + got
+		}
+		knownSig, knownInfo = "c16-indirect:remainder-is-marker", "want "+wantS+" got "+got
+	}
+	goV := ""
+	if re.Go != nil {
+		goV = re.Go.K[0]
+	}
 	if s, i := edBlocksSorted(reFS, goV, work); s != "" {
 		if !edKnownCause(s) {
 			return s, i
@@ -312,6 +326,13 @@ func edCheckC16(work bool, file string, ops []edOp) (sig, info string) {
 			}
 			if !edSubseq(k.before, edComTexts(r.Syntax.Before)) || !edInText(k.before, out) {
 				return "c16-comments:before:" + set.Name, r.Mod.Path
+			}
+			if nested[r.Mod.Path] {
+				// the payload is still in the file, but (the recorded cause) it now reads as the marker
+				if !edInText(k.payload, out) {
+					return "c16-comments:suffix:" + set.Name, r.Mod.Path + " lost " + strings.Join(k.payload, "|")
+				}
+				continue
 			}
 			if !edSubseq(k.payload, edSuffixPayload(r.Syntax)) {
 				return "c16-comments:suffix:" + set.Name, r.Mod.Path + " had " + strings.Join(k.payload, "|") + " has " + strings.Join(edSuffixPayload(r.Syntax), "|")
@@ -348,8 +369,63 @@ func edCheckC16(work bool, file string, ops []edOp) (sig, info string) {
 	return "", ""
 }
 
+// edOnlyRemainderIsMarker: the re-parsed requirements are the requested ones except for indirect flags, and every
+// flag mismatch has the recorded structural cause (requested direct, re-parsed indirect, comment before the setter
+// "// indirect; <marker>").  Returns the paths concerned; nil = anything else.
+func edOnlyRemainderIsMarker(want []edEnt, typed, re *modfile.File, preSuffix map[*modfile.Require]string) map[string]bool {
+	if re == nil || len(re.Require) != len(want) {
+		return nil
+	}
+	reBy := map[string]*modfile.Require{}
+	for _, q := range re.Require {
+		reBy[q.Mod.Path] = q
+	}
+	tyBy := map[string]*modfile.Require{}
+	for _, r := range typed.Require {
+		tyBy[r.Mod.Path] = r
+	}
+	var found map[string]bool
+	for _, e := range want {
+		q := reBy[e.K[0]]
+		if q == nil || q.Mod.Version != e.K[1] {
+			return nil
+		}
+		if q.Indirect == e.Ind {
+			continue
+		}
+		r := tyBy[e.K[0]]
+		if r == nil || e.Ind || !q.Indirect {
+			return nil
+		}
+		pre, had := preSuffix[r]
+		if !had || !edRemainderIsMarker(pre) {
+			return nil
+		}
+		if found == nil {
+			found = map[string]bool{}
+		}
+		found[e.K[0]] = true
+	}
+	return found
+}
+
+// the minimal session of the recorded finding "c16-indirect:remainder-is-marker", run on every check
+const edC16NestedFile = "module m\nrequire a v1.0.0 // indirect; indirect\n"
+
+func edC16NestedOps() []edOp {
+	return []edOp{{Name: "cleanup"}, {Name: "setrequire", List: []edEnt{{K: []string{"a", "v1.0.0"}, Ind: false, ID: -1}}}, {Name: "cleanup"}}
+}
+
 func oracleC16(g *Gen, n int) {
 	seen := map[string]bool{}
+	{
+		ops := edC16NestedOps()
+		g.Case("c16-setrequire:nested-marker")
+		if sig, info := edCheckC16(false, edC16NestedFile, ops); sig != "" {
+			seen[sig] = true
+			g.Fail(sig, info+" || file: "+strings.ReplaceAll(edC16NestedFile, "\n", "\\n"), edSessionLine(false, edC16NestedFile, ops))
+		}
+	}
 	for i := 0; i < n; i++ {
 		work := g.Chance(25)
 		file, ops, _ := edGenSession(g.Rand, work)
